@@ -33,7 +33,9 @@ RULE_ADDED = ('Added later: stage-2 conformance of every accepted adaptive step,
               'gned logarithmic norm, purely relative tolerances, call-order plane in fresh interpreters, mixdt (fl'
               'oat32 time grid with float64 state: dtype, y[0] == y0 bit for bit, agreement with the float64 grid).'
               ' Round 4: nested plane (the right-hand side calls solve_ivp re-entrantly with the same method and st'
-              'ate size).')
+              'ate size). Round 5: domain plane (adaptive method x right-hand sides that are NaN outside the half sp'
+              'ace containing the exact solution x long first output intervals x tolerances x dtype: the trial ste'
+              'p that leaves the domain has to be rejected; finite result within the global error bound).')
 ASSUMPTIONS = [
     "the right-hand side is evaluated once at the start and then s times per attempted step of rk23/rk45, the last "
     "evaluation being at the end of the step (used only to read accept/reject and step counts from the call log; "
@@ -388,6 +390,16 @@ def cases(tier, seed):
             for g in (("u5", "ragged", "u5-dec") if tier == "quick" else LATTICE_GRIDS):
                 out.append({"kind": "mixdt", "method": m, "family": f, "grid": g, "dtype": "float64",
                             "tsdtype": "float32", "plane": 0})
+    # (f) right-hand sides defined only on the domain of the solution (NaN beyond it): a trial step that leaves the
+    # domain must be rejected like any other failed step
+    for m in ADAPTIVE:
+        for f in DOMAIN_FAMILIES:
+            for g in DOMAIN_GRIDS:
+                for tl in ("default", "tight", "loose"):
+                    for d in dtypes:
+                        if d == "float32" and tl == "tight":
+                            continue
+                        out.append({"kind": "domain", "method": m, "family": f, "grid": g, "tol": tl, "dtype": d})
     # (e) re-entrancy: the right-hand side of a solve calls solve_ivp itself (same method, same state size, same
     # dtype): nothing of the inner call may leak into the outer one
     for m in METHODS:
@@ -1066,6 +1078,68 @@ def run_mixdt(cfg):
     return {"viol": viol, "obs": {"d": rnd(d, 2)}, "status": "violation" if viol else "ok", "n": 2}
 
 
+# ---- (f) right-hand sides that are defined only on the domain of the solution (NaN outside it)
+DOMAIN_FAMILIES = ("gompertz", "gdecay", "gdecay2")
+DOMAIN_GRIDS = {"T10": [0.0, 10.0], "T4_10": [0.0, 4.0, 10.0], "T8": [0.0, 8.0], "T2_3_20": [0.0, 2.0, 3.0, 20.0]}
+
+
+def _domain_problem(name, dt):
+    """(rhs, y0, flow): contractive problems whose right-hand side is NaN outside the half space that contains the
+    whole exact solution; the first trial step of the adaptive methods (the first output interval) leaves it"""
+    if name == "gompertz":          # y' = -y log y, y(t) = exp(log(y0) exp(-t)); log of a negative number is NaN
+        y0 = torch.tensor([5.0, 2.0], dtype=dt)
+        return (lambda t, y: -y * torch.log(y)), y0, (lambda t: torch.exp(torch.log(y0.double()) * math.exp(-t)))
+    if name == "gdecay":            # y' = -1.3 y for y > 0, undefined (NaN) otherwise
+        y0 = torch.tensor([0.8], dtype=dt)
+        return (lambda t, y: -1.3 * y + 0.0 * torch.sqrt(y)), y0, (lambda t: y0.double() * math.exp(-1.3 * t))
+    if name == "gdecay2":           # two components; only the second one is guarded
+        y0 = torch.tensor([0.5, 3.0], dtype=dt)
+        r = torch.tensor([0.4, 2.0], dtype=dt)
+        return ((lambda t, y: -r * y + 0.0 * torch.sqrt(y[1])), y0,
+                (lambda t: y0.double() * torch.exp(-r.double() * t)))
+    raise KeyError(name)
+
+
+def run_domain(cfg):
+    """the adaptive methods must reject a trial step whose error estimate is not a number (the trial left the
+    domain of the right-hand side) and deliver the solution within the tolerances; nothing else is demanded: a
+    raised exception that names the problem would be accepted, a silent non-finite or inaccurate result is not"""
+    m = cfg["method"]
+    dt = dt_of(cfg["dtype"])
+    atol, rtol = TOLS[cfg["tol"]]
+    rhs, y0, flow = _domain_problem(cfg["family"], dt)
+    ts = torch.tensor(DOMAIN_GRIDS[cfg["grid"]], dtype=dt)
+    spy = Spy(rhs=rhs)
+    o = _solve(spy.f, ts, y0, m, atol=atol, rtol=rtol)
+    if o.exc is not None:
+        return {"viol": [], "obs": {"exc": o.exc_sig}, "status": "rejected"}
+    yt = o.value
+    if tuple(yt.shape) != (ts.numel(),) + tuple(y0.shape):
+        return {"viol": [V("result-shape", {"got": list(yt.shape)})], "obs": {}, "status": "violation"}
+    viol = []
+    nan_evals = sum(1 for (_, yy) in spy.log if not bool(torch.isfinite(rhs(0.0, yy)).all()))
+    if not bool(torch.isfinite(yt).all()):
+        viol.append(V("non-finite-result-returned-silently", {"y": rnd(yt.double().reshape(-1)[:8]),
+                                                              "evaluations_outside_the_domain": nan_evals}))
+    else:
+        if not torch.equal(yt[0], y0):
+            viol.append(V("y[0]-differs-from-y0", {"y[0]": rnd(yt[0])}))
+        s = STAGES[m]
+        attempts = max(1, (len(spy.log) - 1) // s + 1)
+        ymax = float(y0.abs().max())
+        eps = eps_of(dt)
+        bound = 10.0 * (atol + rtol * ymax) * attempts + 100.0 * eps * len(spy.log) * ymax
+        worst = 0.0
+        for i, t in enumerate(DOMAIN_GRIDS[cfg["grid"]]):
+            worst = max(worst, float((yt[i].double() - flow(t)).abs().max()))
+        if not worst <= bound:
+            viol.append(V("global-error-above-tolerance-bound", {"error": worst, "bound": bound,
+                                                                 "attempts": attempts}))
+    return {"viol": viol, "obs": {"evals": len(spy.log), "outside": nan_evals,
+                                  "y_end": rnd(yt[-1].double().reshape(-1)[:2], 6)},
+            "status": "violation" if viol else "ok", "trivial": nan_evals == 0}
+
+
 def run_nested(cfg):
     """outer: y' = -z(t) y with z(t) obtained by an inner solve_ivp of z' = -z, z(0) = (1, 1) from 0 to t (same
     state shape as y).  Closed form: z = exp(-t), y = y0 exp(-(1 - exp(-t))).  Reference run: the same outer solve
@@ -1131,6 +1205,8 @@ def run_case(cfg):
         return run_nested(cfg)
     if k == "mixdt":
         return run_mixdt(cfg)
+    if k == "domain":
+        return run_domain(cfg)
     if k == "history":
         from mc.props import _hist_common as H
         return H.run_history("C07", HIST_PRELUDE, ["%s/%s" % c for c in HIST_LABELS], cfg["seq"], HIST_TOL,
